@@ -143,9 +143,15 @@ func init() {
 	}
 }
 
-var traitKindNames = func() []string {
+var traitKindNames []string
+
+// after every init() of the package (lookalike.go adds kinds)
+func traitKindNamesInit() []string {
 	r := []string{}
 	for k := range traitKinds {
+		if k == "alpriv" {
+			continue // out of domain
+		}
 		if len(k) == 3 && k[0] == 'p' && (k[2] == '0' || k[2] == '1') {
 			continue // session kinds are not drawn at random
 		}
@@ -156,7 +162,7 @@ var traitKindNames = func() []string {
 	}
 	sort.Strings(r)
 	return r
-}()
+}
 
 type traitCol struct {
 	kind     string
